@@ -84,8 +84,33 @@ def builder_signature(F, b):
     return sig
 
 
+def check_wrapper_siblings(ctx, F):
+    """The convenience constructors of the two trees (from_probabilities, from_float_probabilities) feed the shared merge
+    protocol: encoder and decoder must prepare the weights identically (same conversion, same NaN handling, same
+    arithmetic type), otherwise sums of inner nodes round differently and the two trees disagree."""
+    for name in ('from_probabilities', 'from_float_probabilities'):
+        key = 'R4/wrapper-siblings/' + name
+        role = 'encoder and decoder tree prepare their weights identically in %s' % name
+        e = [b for b in F.bodies if b.promoted is None and b.name == name and b.self_adt == ENC]
+        d = [b for b in F.bodies if b.promoted is None and b.name == name and b.self_adt == DEC]
+        if not e or not d:
+            ctx.unresolved('R4', role, 'symbol::huffman', 'constructor not found on both trees', key=key)
+            continue
+        ctx.touch(e[0]); ctx.touch(d[0])
+        norm = lambda fp: repr(sorted(repr(x) for x in fp)).replace('EncoderHuffmanTree', 'Tree').replace('DecoderHuffmanTree', 'Tree') if not isinstance(fp, tuple) else None
+        fe, fd = norm(dageq.fingerprint(e[0])), norm(dageq.fingerprint(d[0]))
+        if fe is None or fd is None:
+            ctx.unresolved('R4', role, e[0].defpath, 'too many paths', key=key)
+        elif fe == fd:
+            ctx.ok('R4', role, e[0].defpath, 'structurally identical up to the tree type (closures included)', key=key)
+        else:
+            ctx.bad('R4', role, e[0].defpath, 'the two constructors differ (%s): weights that reach the shared merge loop in different types or after different conversions can order differently, so a code word of the encoder tree decodes to another symbol' % (
+                dageq.diff(dageq.fingerprint(e[0]), dageq.fingerprint(d[0]))[:300]), key=key, loc=rules.loc(e[0]))
+
+
 def run(ctx):
     F = ctx.F
+    check_wrapper_siblings(ctx, F)
     eb = [b for b in F.bodies if b.promoted is None and b.name == BUILDER and b.self_adt == ENC]
     db = [b for b in F.bodies if b.promoted is None and b.name == BUILDER and b.self_adt == DEC]
     key = 'R4/same-merge-protocol/huffman'
